@@ -21,13 +21,14 @@ CONSTANTS
   EXTRAS,     \* subset of {0, 1, 2}: no second AVS / a second AVS (asset ASSETS[2] only) listed BEFORE / AFTER the chain AVS
   FEES, PATHS, BURNS, DELAMTS,
   MAXDEL,     \* delegations per behaviour
+  MAXUPD,     \* parameter updates (MsgUpdateParams: tax, reward) per behaviour
   MAXJAIL,    \* validators jailed per behaviour (the validator keeps its power, all its stakers' active value becomes 0)
   MAXEPOCHS,  \* blocks with at least one epoch end per behaviour
   MAXOPS,     \* events per behaviour (Setup included)
   GENSUPPLY
 
-VARIABLES st, env, dels, hist, chk, nep
-vars == <<st, env, dels, hist, chk, nep>>
+VARIABLES st, env, dels, hist, chk, nep, nup
+vars == <<st, env, dels, hist, chk, nep, nup>>
 
 IDS == Range(IDORD)
 OpSet == Range(OPS)
@@ -45,6 +46,7 @@ Init ==
   /\ hist = <<>>
   /\ chk = AllTrue
   /\ nep = 0
+  /\ nup = 0
 
 \* ----- environment derived from the world and the delegations -----
 StakerList(ds, pw, o, a) ==
@@ -83,7 +85,7 @@ Setup(pw, rate, tax, reward, ids, xa) ==
              ent |-> EntOf(<<>>, pw, xa, {}), pw |-> pw, xa |-> xa, jailed |-> {}]
   /\ hist' = <<[ev |-> "Setup", a |-> [pw |-> pw, rate |-> rate, tax |-> tax, reward |-> reward,
                                        distId |-> ids[1], mintId |-> ids[2], xa |-> xa, prec |-> PREC]]>>
-  /\ UNCHANGED <<st, dels, chk, nep>>
+  /\ UNCHANGED <<st, dels, chk, nep, nup>>
 
 Do(ev, a) ==
   /\ hist # <<>>
@@ -102,8 +104,8 @@ Do(ev, a) ==
 
 Next ==
   \/ \E pw \in PWS, rate \in RATESETS, tax \in TAXES, reward \in REWARDS, ids \in IDPAIRS, xa \in EXTRAS : Setup(pw, rate, tax, reward, ids, xa)
-  \/ \E x \in FEES, p \in PATHS : Do("FeeIncome", [x |-> x, path |-> p]) /\ UNCHANGED <<env, dels, nep>>
-  \/ \E x \in BURNS : hist # <<>> /\ x <= st.supply /\ Do("Burn", [x |-> x]) /\ UNCHANGED <<env, dels, nep>>
+  \/ \E x \in FEES, p \in PATHS : Do("FeeIncome", [x |-> x, path |-> p]) /\ UNCHANGED <<env, dels, nep, nup>>
+  \/ \E x \in BURNS : hist # <<>> /\ x <= st.supply /\ Do("Burn", [x |-> x]) /\ UNCHANGED <<env, dels, nep, nup>>
   \/ \E s \in STAKERS, ai \in DOMAIN ASSETS, o \in OpSet, x \in DELAMTS :
         /\ hist # <<>>
         /\ Len(dels) < MAXDEL
@@ -111,22 +113,29 @@ Next ==
         /\ Do("Delegate", [s |-> s, a |-> ASSETS[ai], o |-> o, x |-> x])
         /\ dels' = Append(dels, [s |-> s, a |-> ASSETS[ai], o |-> o, x |-> x])
         /\ env' = [env EXCEPT !.ent = EntOf(dels', env.pw, env.xa, env.jailed)]
-        /\ UNCHANGED nep
+        /\ UNCHANGED <<nep, nup>>
   \/ \E o \in OpSet :
         /\ hist # <<>>
         /\ env.pw[IdxOf(o)] > 0 /\ o \notin env.jailed /\ Cardinality(env.jailed) < MAXJAIL
         /\ Do("Jail", [o |-> o])
         /\ env' = [env EXCEPT !.jailed = @ \cup {o}, !.ent = EntOf(dels, env.pw, env.xa, env.jailed \cup {o})]
+        /\ UNCHANGED <<dels, nep, nup>>
+  \/ \E tax \in TAXES, reward \in REWARDS :
+        /\ hist # <<>> /\ nup < MAXUPD
+        /\ <<tax, reward>> # <<env.tax, env.reward>>
+        /\ Do("UpdateParams", [tax |-> tax, reward |-> reward])
+        /\ env' = [env EXCEPT !.tax = tax, !.reward = reward]
+        /\ nup' = nup + 1
         /\ UNCHANGED <<dels, nep>>
   \/ \E ended \in SUBSET IDS :
         /\ ended # {} => nep < MAXEPOCHS
         /\ Do("Block", [ended |-> ended])
         /\ nep' = IF ended # {} THEN nep + 1 ELSE nep
-        /\ UNCHANGED <<env, dels>>
+        /\ UNCHANGED <<env, dels, nup>>
 
 Spec == Init /\ [][Next]_vars
 
-View == <<st, env, dels, chk, nep>>
+View == <<st, env, dels, chk, nep, nup>>
 
 \* ----- invariants: property C17 on the model -----
 InvSupplyDelta   == chk.supply
